@@ -1731,7 +1731,7 @@ class UTPM(Ring, RawAlgorithmsMixIn):
             # try to infer the dtype from x
             dtype= x.dtype
 
-            if dtype==int:
+            if numpy.dtype(dtype).kind in 'iub':
                 dtype=float
 
 
@@ -1785,7 +1785,7 @@ class UTPM(Ring, RawAlgorithmsMixIn):
             # try to infer the dtype from x
             dtype= x.dtype
 
-            if dtype==int:
+            if numpy.dtype(dtype).kind in 'iub':
                 dtype=float
 
 
@@ -1922,7 +1922,7 @@ class UTPM(Ring, RawAlgorithmsMixIn):
             # try to infer the dtype from x
             dtype= x.dtype
 
-            if dtype==int:
+            if numpy.dtype(dtype).kind in 'iub':
                 dtype=float
 
         N = numpy.size(x)
